@@ -361,6 +361,7 @@ def run_check(pid: str, tier: str, base_seed: int, runs: Optional[int], jobs: in
         if len(new_violations) >= max_report:
             print("violation (not minimised, report cap reached): signature=%s runs=%d" % (sig, len(rs)))
             new_violations.append({"sig": sig, "cls": rs[0]["violations"][0]["cls"], "replay": None, "runs": len(rs)})
+            exit_code = EXIT_VIOLATION
             continue
         r0 = rs[0]
         v0 = [v for v in r0["violations"] if v["sig"] == sig][0]
